@@ -14,6 +14,9 @@ RULE = ("MapOps.tla: positional definitions of shift / difference / percentage c
 def run(ctx):
     q = ctx.quick
     r = ctx.tlc("map", "MCMapOps", "MCMapOps_c13.cfg" if q else "MCMapOps_c13_thorough.cfg", workers=8, timeout=3000)
+    # forward fill for a series of ANY length: the carried-last-valid closure computes the positional definition
+    # (TLA+ proof system with induction, 57 obligations; FFillIsClosure ties the machine of MapOps.tla to the recurrence)
+    ctx.tlaps("fill-proof", "FillProof")
     binp = ctx.build("tvh-map")
     ctx.harness("map", binp, ["replay-map", "--only", "lag,fill,clip", "--in", r["emitted"]])
     # float series holding +-infinity (not a null; IEEE 754: inf - inf and inf / inf have no value)
